@@ -118,7 +118,8 @@ pub fn durable_view(live: &Value) -> Value {
         "tracker": live["tracker"],
         "allowlist": node["allowlist"],
         "invoices": node["entry"]["invoices"],
-        "issued_invoices": node["entry"]["issued_invoices"],
+        // invoices the node *issued* (SignInvoice) are not in the statement's list (it names the
+        // approved ones); the signer keeps them in memory until the next store of the node state
         "dbid_high_water_mark": node["entry"]["dbid_high_water_mark"],
     })
 }
